@@ -1,5 +1,5 @@
 P = {
-    "gens": ["C18spray", "C18sprayconc"],
+    "gens": ["C18spray", "C18sprayconc", "C18spraynames"],
     "theorems": ["C18_budget", "C18_life", "C18_life_single_create", "C18_accounting", "C18_sent_list", "C18_giveback", "C18_reachable", "C18_giveback_concurrent",
                  "C18_giveback_single", "C18_binary", "C18_binary_single_copy", "C18_binary_conservation",
                  "C18_gc_overlap_serial", "C18_gc_overlap_transparent"],
@@ -19,7 +19,16 @@ P = {
             "sender: between reading the metadata and writing it back) or from inside the first Send (failure reports arrive while it "
             "runs); same model replay (Model.spray_step_gc: either serial order) and property checkers after every event (relays "
             "<= L-1, remaining + handed over = L, binary announced + kept = held, a pending bundle keeps its metadata), plus: exactly "
-            "the leftovers are gone from the metadata map; distinct = distinct case bodies (history + observations)",
+            "the leftovers are gone from the metadata map; C18spraynames: the same histories, replay and checkers with (1) MIXED NAMING - the "
+            "numbered nodes carry nearly colliding endpoint IDs (dtn://23/ vs ipn:23.1, names differing only in letter case, names that "
+            "are prefixes of each other); hand-made histories per pair of twins (the destination's twin connected while the destination "
+            "is absent / its link fails / it appears later; submitted and received bundles, L = 1, 2, 4) and random ones: a twin is just "
+            "another relay (it takes a copy or, in the wait phase, gets nothing); (2) the CONFIGURATION sensor-mule around spray / "
+            "binary_spray (sensors = nodes 1, 3, 5 of six peers, L = 2..8, several selected in one pass, destinations: absent node / a "
+            "sensor / a relay; random histories): the model does not follow the overlay's exclusion passes, so these histories are judged "
+            "by the property's own checkers on the send log and the metadata hook only (relays <= L-1, remaining + handed over = L, binary "
+            "conservation, single copy) plus: the sent list names exactly the relays that got the bundle (an excluded sensor is neither "
+            "charged nor listed); distinct = distinct case bodies (history + observations)",
     "assumptions": [
         "the budget is kept per life of a bundle on the node (from entering the store to leaving it): a duplicate of a stored "
         "bundle never reaches the algorithm (Core.receive drops it - modelled and exercised), but a bundle that left the store "
@@ -40,6 +49,8 @@ P = {
         "hook, store membership, after every event)",
         "peer endpoint IDs are node-level, so == on peer EIDs and SameNode(destination) are both equality of node numbers",
         "sync.RWMutex gives mutual exclusion (the lock of the sub-step model)",
+        "hook pkg/routing/verif_export_spraymule.go: VerifSprayMetaInner / VerifSprayGCInner (metadata accessor and synchronous GC of "
+        "the spray algorithm beneath a sensor-mule overlay)",
         "hook pkg/routing/verif_export_spraygc.go: VerifSprayAddLeftovers (metadata entries of bundles the store does not know, as "
         "expired bundles leave them behind) and VerifSprayMetaCount; the overlap of the collection with an event is produced by "
         "schedule points in the harness's mock senders, not inside the unguarded code",
